@@ -54,6 +54,10 @@ def sn_use(c): return (5, c)
 def sn_syntax(pre): return (6, int(pre))
 def sn_throw(w, d=None): return (7, w) if d is None else (7, w, d[0], z(d[1]))
 SN_TRYFIN, SN_TRYCATCH, SN_FIBEROK, SN_CAPOK, SN_USELEAK, SN_RESET, SN_USEFIBER, SN_PROBETOTAL = (8,), (9,), (10,), (11,), (13,), (16,), (17,), (18,)
+# runs that end SUCCESSFULLY with the exception flag still set (round 7): a finally block entered by a throw that returns /
+# that parks its fiber for good.  Their own outcome is what one run prints; the point is what the NEXT snippets see.
+SN_SWALLOWOK, SN_PARKFIN = (19,), (20,)
+DIRTY_OK = [SN_SWALLOWOK, SN_PARKFIN]
 def sn_range(k): return (12, k)
 def sn_import(m): return (14, m)
 def sn_usemod(m): return (15, m)
@@ -72,6 +76,7 @@ def all_snippets():
     for w in range(18):
         res += [sn_throw(w), sn_throw(w, (0, 9))]
     res += [SN_TRYFIN, SN_TRYCATCH, SN_FIBEROK, SN_CAPOK, SN_USELEAK, SN_USEFIBER, SN_PROBETOTAL, sn_range(1), sn_range(2), sn_range(3)]
+    res += DIRTY_OK
     for m in range(5):
         res += [sn_import(m), sn_usemod(m)]
     res.append(SN_RESET)
@@ -118,7 +123,7 @@ def wire(h):
 
 
 def gen_history(rng, pool, maxlen=8):
-    style = rng.choice(["random", "fail_same", "fail_same", "poison", "leak", "reset", "flag"])
+    style = rng.choice(["random", "fail_same", "fail_same", "poison", "leak", "reset", "flag", "dirty_ok"])
     n = rng.randint(2, maxlen)
     defs = [sn_var(0, rng.randint(-3, 9)), sn_var(1, rng.randint(-3, 9)), sn_fn(0, rng.choice((0, 1))), sn_fn(1, rng.choice((0, 1))),
             sn_class(0, rng.randint(0, 9)), sn_class(1, 3), sn_import(0), SN_CAPOK]
@@ -148,6 +153,15 @@ def gen_history(rng, pool, maxlen=8):
         h = [rng.choice(pool) for _ in range(rng.randint(1, 4))] + [SN_RESET]
         while len(h) < n:
             h.append(rng.choice(pool))
+        return h[:maxlen]
+    flag_readers = [SN_TRYFIN, SN_TRYFIN, SN_TRYCATCH, sn_throw(5), sn_throw(7), sn_throw(8), sn_throw(12), SN_FIBEROK]
+    if style == "dirty_ok":
+        # a run that ends successfully with working state set, then (optionally after snippets that run nothing or fail)
+        # constructs that read that state
+        h = [rng.choice(defs) for _ in range(rng.randint(0, 2))] + [rng.choice(DIRTY_OK)]
+        while len(h) < n:
+            h.append(rng.choice(flag_readers + flag_readers + [rng.choice(DIRTY_OK), sn_syntax(rng.random() < 0.5), rng.choice(uses),
+                                                               SN_RESET, rng.choice(fails), rng.choice(pool)]))
         return h[:maxlen]
     # flag: an uncaught throw, then constructs that read the exception flag / handler stack
     h = [sn_throw(rng.choice([0, 1, 4, 5, 6, 7, 8, 12]), rng.choice([None, (1, 2)]))]
@@ -234,13 +248,34 @@ def ended(r):
     return (r["res"] or "none").split(":")[0] in ("crash", "panic", "none")
 
 
+RETRIES = {"cases": 0, "recovered": 0}
+
+
+def harness(binary, lines, quarantine=True, case_timeout_ms=10000, **kw):
+    """run_harness + a case that crashed / timed out is re-run before it is believed: first all of them together with a longer
+    time-out, then (at most 40) alone with a long one.  On a loaded machine a harmless history can miss its time-out, and the cases
+    queued behind a hung shard are reported as crashed without having been started."""
+    recs = yvlib.run_harness(binary, lines, quarantine=quarantine, case_timeout_ms=case_timeout_ms, **kw)
+    for tmo, shards, cap in ((30000, None, 400), (90000, 2, 40)):
+        bad = [i for i, r in enumerate(recs) if r.crashed][:cap]
+        if not bad:
+            break
+        RETRIES["cases"] += len(bad)
+        again = yvlib.run_harness(binary, [lines[i] for i in bad], quarantine=quarantine, case_timeout_ms=tmo, shards=shards, recycle=25)
+        for i, r in zip(bad, again):
+            if not r.crashed:
+                RETRIES["recovered"] += 1
+            recs[i] = r
+    return recs
+
+
 def run_impl(binary, items_list, mods_items):
     lines = ["replmods - %s %s" % (mods_items, items) for items in items_list]
-    return yvlib.run_harness(binary, lines, quarantine=True, case_timeout_ms=10000)
+    return harness(binary, lines)
 
 
 def core_chunks(binary):
-    rec = yvlib.run_harness(binary, ["replmods - " + hx("var q = 1;")], shards=1)[0]
+    rec = harness(binary, ["replmods - " + hx("var q = 1;")], quarantine=False, shards=1)[0]
     for l in rec.lines:
         if l.startswith("CS "):
             return int([kv for kv in l.split(" ") if kv.startswith("core_chunks=")][0].split("=")[1])
@@ -546,7 +581,7 @@ def sidefx_histories():
 
 def run_raw(binary, histories, mods_items):
     lines = ["replmods - %s %s" % (mods_items, " ".join(hx(x) for x in h)) for h in histories]
-    return [impl_records(r) for r in yvlib.run_harness(binary, lines, quarantine=True, case_timeout_ms=10000)]
+    return [impl_records(r) for r in harness(binary, lines)]
 
 
 def sidefx_check(ctx, binary, profile, mods_items, only=None):
@@ -750,7 +785,7 @@ def reset_check(ctx, binary, profile, mods_items, only=None):
     def line(pre, reset):
         items = [hx(x) for x in pre] + (["RESET"] if reset else ["FRESH"]) + [names_item] + [hx(p) for p in probes]
         return "replmods - %s %s" % (mods_items, " ".join(items))
-    recs = yvlib.run_harness(binary, [line(pre, True) for _, pre in pres] + [line([], False)], quarantine=True, case_timeout_ms=20000)
+    recs = harness(binary, [line(pre, True) for _, pre in pres] + [line([], False)], case_timeout_ms=20000)
     ref = impl_records(recs[-1])[1:]          # after FRESH: names + probes on a brand-new Vm
     n = 0
     for (label, pre), rec in zip(pres, recs[:-1]):
@@ -828,6 +863,190 @@ def module_check(ctx, binary, profile, mods_items, only=None):
     return n
 
 
+# ---- runs that end SUCCESSFULLY and still leave VM-level working state (round 7) ----
+# Every other directed family starts from a FAILING snippet.  A run can also end successfully with working state set: the
+# exception flag (a finally block entered by an exception that is left by return / break / continue, or whose fiber parks itself for
+# good), parked fibers holding handlers / a pending return / open upvalues / a half-imported module, a full range cache.
+# [such a snippet, probe, probe'] must behave as [probe, probe'] on a new interpreter.  The prefix's own outcome is NOT judged here
+# (abrupt exits from a finally block are C08's business as far as the single run is concerned); it only has to end without error.
+OKMODS = {"xsw": "fn s() { try { throw 1; } finally { return 8; } }\nvar v = s();\n",
+          "xpk": "var f = Fiber.new(|| { try { throw 1; } finally { Fiber.yield(3); } });\nvar v = f.call();\n",
+          "xfin": "var v = 1;\ntry { print(\"mt\"); } finally { print(\"mf\"); }\nvar w = 2;\n",
+          "xyield": "var v = 1;\nFiber.yield(v);\nvar w = 2;\n"}
+# the ways a finally block entered by an exception can be left without EndFinally ({R} = how the exception is raised)
+FLAG_RAISES = [("throw", "throw 1;"), ("builtin", "nil.foo;"), ("callee", "(|| { throw 2; })();"), ("native_callee", "[1][5];")]
+FLAG_CORES = [
+    ("finally_returns", "fn cl() { try { %s } finally { return 8; } } print(cl());"),
+    ("finally_returns_lambda", "print((|| { try { %s } finally { return 8; } })());"),
+    ("finally_returns_method", "#[constructor(new)] class SW { fn go(self) { try { %s } finally { return 8; } } } print(SW.new().go());"),
+    ("finally_breaks", "while true { try { %s } finally { break; } } print(\"out\");"),
+    ("finally_continues", "var i = 0; while i < 2 { i = i + 1; try { %s } finally { continue; } } print(\"out\");"),
+    ("finally_breaks_for", "for i in 0..3 { try { %s } finally { break; } } print(\"out\");"),
+    ("fiber_parks_in_finally", "print(Fiber.new(|| { try { %s } finally { Fiber.yield(3); } }).call());"),
+    ("fiber_parks_in_finally_kept", "var fp = Fiber.new(|| { try { %s } finally { Fiber.yield(3); } }); print(fp.call());"),
+    ("fiber_parks_in_callee_of_finally", "fn park() { Fiber.yield(4); } print(Fiber.new(|| { try { %s } finally { park(); } }).call());"),
+    ("fiber_parks_in_inner_finally", "print(Fiber.new(|| { try { try { %s } finally { Fiber.yield(3); } } finally { print(\"never\"); } }).call());"),
+    ("fiber_finishes_by_finally_return", "print(Fiber.new(|| { try { %s } finally { return 8; } }).call());"),
+    ("swallow_inside_outer_try_catch", "try { print((|| { try { %s } finally { return 8; } })()); } catch e { print(\"no\"); }"),
+]
+DIRTY_FLAG_CORES = [("flag:%s/%s" % (cn, rn), core % raise_, ci, ri) for ci, (cn, core) in enumerate(FLAG_CORES) for ri, (rn, raise_) in enumerate(FLAG_RAISES)]
+DIRTY_OTHER = [
+    ("flag:module_body_swallows", "import \"xsw\" as xs; print(xs.v);"),
+    ("flag:module_body_parks_fiber", "import \"xpk\" as xp; print(xp.v);"),
+    ("flag:twice", "fn cl() { try { throw 1; } finally { return 8; } } print(cl()); print(cl());"),
+    ("flag:swallow_then_caught_throw", "fn cl() { try { throw 1; } finally { return 8; } } print(cl()); try { throw 2; } catch e { print(e); }"),
+    ("flag:caught_throw_then_swallow", "fn cl() { try { throw 1; } finally { return 8; } } try { throw 2; } catch e { print(e); } print(cl());"),
+    # other working state that a SUCCESSFUL run leaves behind
+    ("fiber:parked_in_try_catch", "var fh = Fiber.new(|| { try { Fiber.yield(2); throw 5; } catch e { print(e); } return 9; }); print(fh.call());"),
+    ("fiber:parked_in_try_finally", "var ff = Fiber.new(|| { try { Fiber.yield(2); } finally { print(\"ff\"); } }); print(ff.call());"),
+    ("fiber:parked_with_pending_return", "var fr = Fiber.new(|| { try { return 1; } finally { Fiber.yield(2); } }); print(fr.call());"),
+    ("fiber:parked_with_open_upvalue", "var c3 = nil; var fu = Fiber.new(|| { var x = 41; c3 = || x; Fiber.yield(1); x = 42; }); print(fu.call()); print(c3());"),
+    ("fiber:parked_chain", "var fo = Fiber.new(|| { var fi = Fiber.new(|| { Fiber.yield(1); }); fi.call(); Fiber.yield(2); }); print(fo.call());"),
+    ("module:half_imported_in_parked_fiber", "print(Fiber.new(|| { import \"xyield\" as xy; }).call());"),
+    ("range:full_cache", "var rs0 = [0..1, 0..2, 0..3, 0..4, 0..5, 0..6, 0..7, 0..8, 0..9, 1..3]; print(rs0.len());"),
+]
+# probes in addition to RESIDUE_PROBES: a finally block reached normally in every context code can run in
+DIRTY_PROBES = [
+    ("finally_in_fiber", "print(Fiber.new(|| { try { print(\"t\"); } finally { print(\"f\"); } return 5; }).call()); print(\"after\");"),
+    ("finally_in_method", "#[constructor(new)] class FM { fn go(self) { try { print(\"t\"); } finally { print(\"f\"); } return 6; } } print(FM.new().go()); print(\"after\");"),
+    ("finally_in_module", "import \"xfin\" as xf; print(xf.w);"),
+    ("finally_in_loop", "for i in 0..2 { try { print(i); } finally { print(\"f\"); } } print(\"after\");"),
+    ("finally_in_adapter", "print([1, 2].iter().map(|x| { try { print(x); } finally { print(\"f\"); } return x * 2; }).collect());"),
+    ("finally_in_resumed_fiber", "var fq = Fiber.new(|| { Fiber.yield(1); try { print(\"t\"); } finally { print(\"f\"); } return 2; }); print(fq.call()); print(fq.call());"),
+    ("finally_nested_normal", "try { try { print(\"a\"); } finally { print(\"b\"); } } finally { print(\"c\"); } print(\"after\");"),
+]
+# snippets that run nothing / fail / reset between the prefix and the probe: the state must not come back through them
+DIRTY_BETWEEN = [("compile_error", "var = ;"), ("uncaught_throw", "throw 1;"), ("failing_import", "import \"bad\" as mb;"), ("reset", "RESET")]
+
+
+def run_items(binary, histories, mods_items):
+    """like run_raw, but the word RESET / FRESH is passed through"""
+    lines = ["replmods - %s %s" % (mods_items, " ".join(x if x in ("RESET", "FRESH") else hx(x) for x in h)) for h in histories]
+    return [impl_records(r) for r in harness(binary, lines)]
+
+
+def strip_loads(l):
+    return [";".join(kv for kv in x.split(";") if not kv.startswith("loads=")) for x in l]
+
+
+def dirty_ok_check(ctx, binary, profile, mods_items, only=None):
+    """[snippet that ends successfully with working state set, (snippet in between,) probe, probe'] : the probes behave as on a
+    newly created interpreter.  Returns (histories, prefixes that ended ok, prefixes that left the flag set)"""
+    xm = mods_items + " " + " ".join("%s=%s" % (hx(n), hx(src)) for n, src in OKMODS.items())
+    probes = RESIDUE_PROBES + DIRTY_PROBES
+    if only is not None:
+        k = max(1, len(only) - 2) if len(only) > 2 else 1
+        cases = [("replay", only[:k], only[k:])]
+    else:
+        quick = ctx.quick() if hasattr(ctx, "quick") else True
+        # quick: the first two shapes with every way of raising, the other shapes with one way each (rotating with the seed)
+        rot = ctx.rng.randrange(len(FLAG_RAISES)) if quick and hasattr(ctx, "rng") else 0
+        prefixes = [(dn, d) for dn, d, ci, ri in DIRTY_FLAG_CORES if not quick or ci in (0, 6) or ri == (ci + rot) % len(FLAG_RAISES)] + DIRTY_OTHER
+        # quick: after a flag prefix every probe with a finally block + 3 of the others (rotating); everything after the other prefixes
+        nofin = [pn for pn, p in probes if "finally" not in p]
+        keep = set(nofin[(rot + j * 3) % len(nofin)] for j in range(3)) if quick else set(nofin)
+        cases = [("%s / %s" % (dn, pn), [d], [p, probes[(i + 1) % len(probes)][1]])
+                 for dn, d in prefixes for i, (pn, p) in enumerate(probes)
+                 if not dn.startswith("flag:") or "finally" in p or pn in keep]
+        key = [p for p in probes if p[0] in (("try", "finally_in_fiber") if quick else ("try", "return", "finally_in_fiber"))]
+        cases += [("%s / %s / %s" % (dn, bn, pn), [d, b], [p, probes[0][1]])
+                  for j, (dn, d) in enumerate(prefixes) if dn.startswith("flag:") and (not quick or j % 3 == rot % 3)
+                  for bn, b in DIRTY_BETWEEN for pn, p in key]
+    got_all = run_items(binary, [pre + ps for _, pre, ps in cases], xm)
+    fresh_cache = {}
+    todo = sorted({(pre[-1] == "RESET", tuple(ps)) for _, pre, ps in cases})
+    # after RESET the modules are gone as well: the reference for a case with RESET in between is RESET + probes on a new interpreter
+    for k, recs in zip(todo, run_items(binary, [(["RESET"] if k[0] else []) + list(k[1]) for k in todo], xm)):
+        fresh_cache[k] = recs[1:] if k[0] else recs
+    n = nok = 0
+    flagged = set()
+    bad = []
+    for (label, pre, ps), a in zip(cases, got_all):
+        n += 1
+        if not a or a[0]["res"] != "ok":
+            note = "dirty-ok family: %r did not end successfully on this tree" % pre[0]
+            if label != "replay" and note not in ctx.notes:
+                ctx.notes.append(note)
+            continue
+        nok += 1
+        if (a[0]["cs"] or "").startswith("he=1"):
+            flagged.add(pre[0])
+        got = [fmt_full(r) for r in a[len(pre):]]
+        want = [fmt_full(r) for r in fresh_cache[(pre[-1] == "RESET", tuple(ps))]]
+        if strip_loads(got) != strip_loads(want):
+            sg, sw = strip_loads(got), strip_loads(want)
+            first = next((i for i in range(min(len(sg), len(sw))) if sg[i] != sw[i]), min(len(sg), len(sw)))
+            bad.append((first, len(pre), dict(
+                what="after a snippet that ended SUCCESSFULLY but left working state behind (%s) a later snippet behaves differently than on a new interpreter [%s build]" % (label, profile),
+                input=pre + ps, raw_dirty=pre + ps, modules=OKMODS, profile=profile,
+                expected=[readable(x.split(";msgs=")[0]) for x in want], actual=[readable(x.split(";msgs=")[0]) for x in got],
+                expected_messages=[[unmsg(m) for m in x.split(";msgs=")[1].split(",") if m] for x in want],
+                actual_messages=[[unmsg(m) for m in x.split(";msgs=")[1].split(",") if m] for x in got])))
+    # the shortest explanations first: the probe right after the prefix differs, nothing in between
+    bad.sort(key=lambda t: (t[0], t[1]))
+    for _, _, v in bad[:10]:
+        ctx.violation(v.pop("what"), **v)
+    return n, nok, len(flagged)
+
+
+# ---- one program run piecewise: objects parked by one snippet and continued by the next ----
+# (A, B): A ends successfully; [A, B] on one interpreter must print what the single snippet "A B" prints and end the same way.
+# Only constructs whose single-run behaviour is outside C08's open classes (no abrupt exit from a finally block).
+SPLIT_CASES = [
+    ("handler_of_parked_fiber", "var fh = Fiber.new(|| { try { Fiber.yield(2); throw 5; } catch e { print(e); } return 9; }); print(fh.call());",
+     "print(fh.call()); print(fh.has_finished());"),
+    ("finally_of_parked_fiber", "var ff = Fiber.new(|| { try { Fiber.yield(2); print(\"r\"); } finally { print(\"ff\"); } return 3; }); print(ff.call());",
+     "print(ff.call()); print(ff.has_finished());"),
+    ("finally_of_parked_fiber_throwing", "var ft = Fiber.new(|| { try { try { Fiber.yield(2); throw 6; } finally { print(\"ff\"); } } catch e { print(e); } return 4; }); print(ft.call());",
+     "print(ft.call());"),
+    ("pending_return_of_parked_fiber", "var fr = Fiber.new(|| { try { return 1; } finally { Fiber.yield(2); print(\"late\"); } }); print(fr.call());",
+     "print(fr.call()); print(fr.has_finished());"),
+    ("parked_inside_normal_finally", "var fn_ = Fiber.new(|| { try { print(\"t\"); } finally { Fiber.yield(1); print(\"f2\"); } return 7; }); print(fn_.call());",
+     "print(fn_.call()); try { print(\"b\"); } finally { print(\"bf\"); } print(\"after\");"),
+    ("open_upvalue_of_parked_fiber", "var c3 = nil; var fu = Fiber.new(|| { var x = 41; c3 = || x; Fiber.yield(1); x = 42; Fiber.yield(2); }); print(fu.call()); print(c3());",
+     "print(fu.call()); print(c3()); (|| { var y = 1; print(y + c3()); })();"),
+    ("callee_of_parked_fiber_throws", "fn inner() { Fiber.yield(1); throw 8; } var fc = Fiber.new(|| { try { inner(); } catch e { print(e); return 10; } return 11; }); print(fc.call());",
+     "print(fc.call()); print(fc.has_finished());"),
+    ("generator", "var gen = Fiber.new(|| { for i in 0..4 { Fiber.yield(i * i); } return -1; }); print(gen.call()); print(gen.call());",
+     "print(gen.call()); print(gen.call()); print(gen.call()); print(gen.has_finished());"),
+    ("resumed_inside_try_and_fiber", "var fz = Fiber.new(|| { try { Fiber.yield(1); throw 3; } finally { print(\"zf\"); } });  print(fz.call());",
+     "try { fz.call(); } catch e { print(e); } finally { print(\"bf\"); } print(Fiber.new(|| { return 12; }).call());"),
+    ("parked_in_adapter", "var fa = Fiber.new(|| { return [1, 2].iter().map(|x| { Fiber.yield(x); return x * 2; }).collect(); }); print(fa.call());",
+     "print(fa.call()); print(fa.call());"),
+    ("parked_chain", "var fo = Fiber.new(|| { var fi = Fiber.new(|| { Fiber.yield(1); return 5; }); print(fi.call()); Fiber.yield(2); print(fi.call()); return 6; }); print(fo.call());",
+     "print(fo.call()); print(fo.has_finished());"),
+    ("uncaught_from_resumed_fiber", "var fx = Fiber.new(|| { try { Fiber.yield(1); throw 13; } finally { print(\"xf\"); } }); print(fx.call());",
+     "fx.call();"),
+    ("class_instance_closure", "#[constructor(new)] class Ctr { fn inc(self) { self.n = self.n + 1; return self.n; } } var ct = Ctr.new(); ct.n = 0; var up = || ct.inc(); print(up());",
+     "print(up()); print(ct.n); print(type(ct)); print(Ctr);"),
+]
+
+
+def split_check(ctx, binary, profile, mods_items, only=None):
+    cases = SPLIT_CASES if only is None else [("replay", only[0], only[1])]
+    two = run_items(binary, [[a, b] for _, a, b in cases], mods_items)
+    one = run_items(binary, [[a + " " + b] for _, a, b in cases], mods_items)
+    n = 0
+    for (label, a, b), t, o in zip(cases, two, one):
+        n += 1
+        if len(t) < 2 or not o or t[0]["res"] != "ok":
+            note = "split family: %r did not end successfully on this tree" % a
+            if label != "replay" and note not in ctx.notes:
+                ctx.notes.append(note)
+            continue
+        first = lambda r: (r["res"] or "none") + ":" + (r["msgs"][0] if r["msgs"] else "")
+        got = (t[0]["out"] + t[1]["out"], first(t[1]))
+        want = (o[0]["out"], first(o[0]))
+        if got != want:
+            dec = lambda x: ([yvlib.unhx(l).decode("utf-8", "replace") for l in x[0]], x[1].split(":")[0] + ":" + unmsg(x[1].split(":")[-1]) if x[1].count(":") else x[1])
+            ctx.violation("an object parked by one snippet and continued by the next (%s) behaves differently than in one program [%s build]" % (label, profile),
+                          input=[a, b], raw_split=[a, b], profile=profile, expected=dec(want), actual=dec(got))
+    return n
+
+
+DIRTY_STATS = {}
+
+
 def directed_families(ctx, bins, mods_items):
     """the cheap directed oracles on the implementation alone (both builds); returns the number of harness histories"""
     n = nf = 0
@@ -838,6 +1057,12 @@ def directed_families(ctx, bins, mods_items):
         n += residue_check(ctx, binary, profile, mods_items)
         n += reset_check(ctx, binary, profile, mods_items)
         n += module_check(ctx, binary, profile, mods_items)
+        phase("  sidefx/residue/reset/module (%s)" % profile)
+        a, b, c = dirty_ok_check(ctx, binary, profile, mods_items)
+        phase("  dirty_ok (%s)" % profile)
+        n += a
+        DIRTY_STATS[profile] = {"histories": a, "prefix_ended_ok": b, "distinct_prefixes_leaving_flag_set": c}
+        n += 2 * split_check(ctx, binary, profile, mods_items)
     return n, nf
 
 
@@ -892,8 +1117,20 @@ def shrink(h, fails, budget=30):
     return cur
 
 
+T0 = [0.0]
+
+
+def phase(name):
+    import time
+    now = time.time()
+    if T0[0]:
+        log("[C15] %-28s %6.1fs" % (name, now - T0[0]))
+    T0[0] = now
+
+
 def run(ctx):
     quick = ctx.quick()
+    phase("start")
     rng = ctx.rng
     pool = all_snippets()
     bins = {"debug": ctx.harness("debug"), "release": ctx.harness("release")}
@@ -913,7 +1150,7 @@ def run(ctx):
                      only=ctx.replay_only["raw"])
         ctx.cov.update({"evaluations": 2, "distinct_nontrivial": 1, "rule": "replay of one raw side-effect history", "samples": [ctx.replay_only["raw"]]})
         return
-    for key, fn in (("raw_reset", reset_check), ("raw_modules", module_check)):
+    for key, fn in (("raw_reset", reset_check), ("raw_modules", module_check), ("raw_dirty", dirty_ok_check), ("raw_split", split_check)):
         if ctx.replay_only and key in ctx.replay_only:
             mods_items = " ".join("%s=%s" % (hx(n), hx(s)) for n, s in zip(["good", "bad", "syn", "nest"], MOD_SRC))
             load_msg_table()
@@ -937,6 +1174,14 @@ def run(ctx):
         hists = [pre + [f, p, sn_call(0), sn_use(0), sn_usemod(0)] for f in fails for p in pool if not quick or f[0] != 7 or len(f) == 2]
         if not quick:
             hists += [[f, p] for f in fails for p in pool]
+        # every (successful run that leaves the flag set, any snippet) pair; and with a failing / non-running snippet in between
+        readers = [SN_TRYFIN, SN_TRYCATCH, sn_throw(5), sn_throw(7), sn_throw(8), sn_throw(12), SN_FIBEROK]
+        hists += [pre + [d, p, sn_call(0), sn_use(0), sn_usemod(0)] for d in DIRTY_OK for p in pool]
+        between = [SN_RESET, sn_syntax(False), sn_syntax(True), sn_throw(0), sn_throw(4), sn_throw(9), sn_import(1)] + DIRTY_OK
+        if not quick:
+            hists += [[d, p] for d in DIRTY_OK for p in pool]
+            between = [f for f in fails if len(f) <= 2] + DIRTY_OK + [SN_RESET]
+        hists += [[d, f, r] for d in DIRTY_OK for f in between for r in readers]
         corpus_dir = os.path.join(yvlib.VERIF, "corpus", "C15")
         if os.path.isdir(corpus_dir):
             import json
@@ -947,7 +1192,9 @@ def run(ctx):
         if getattr(ctx, "_search", False):
             # bounded search: the systematic part was run already; only new random histories (the rng has moved on)
             hists = [gen_history(rng, pool, 8) for _ in range(2500)]
+    phase("setup")
     models = coq_cases(hists, core, "hist")
+    phase("coq models (%d histories)" % len(hists))
     mods_items = next((m for m in models if m), None)
     if mods_items is None:
         ctx.corr_broken.append("coq_eval produced no model result")
@@ -964,14 +1211,17 @@ def run(ctx):
     if not ctx.replay_only and not getattr(ctx, "_directed_done", False):
         sfx, sfx_failing = directed_families(ctx, bins, mods_items)
         ctx._directed_done = True
+        phase("directed families")
     for profile, binary in bins.items():
         impl = check_histories(ctx, hists, binary, profile, core, mods_items, models)
         impl_by_profile[profile] = impl
+        phase("histories on impl (%s)" % profile)
         for h, m, irs in zip(hists, models, impl):
             if m and irs and nontrivial(h, m, irs):
                 nontriv.add(wire(h))
         meta += metamorphic(ctx, hists, models, impl, binary, profile, mods_items, 400 if quick else 6000)
         fresh += reset_vs_fresh(ctx, hists, models, impl, binary, profile, mods_items, 200 if quick else 3000)
+        phase("metamorphic + reset (%s)" % profile)
     # dev and release agree with each other snippet by snippet (the removed debug_assert only mattered in dev)
     for h, m, a, b in zip(hists, models, impl_by_profile["debug"], impl_by_profile["release"]):
         if a and b and [fmt_mech(r) for r in a] != [fmt_mech(r) for r in b]:
@@ -979,11 +1229,14 @@ def run(ctx):
                           expected=[readable(fmt_mech(r)) for r in a], actual=[readable(fmt_mech(r)) for r in b])
             break
     if not ctx.replay_only and not getattr(ctx, "_search", False):
-        sample = [i for i in range(len(hists)) if models[i] and impl_by_profile["debug"][i]]
+        # `return` / Fiber.yield inside a finally block entered by a throw is inside C08's open classes as far as the SINGLE run is
+        # concerned (what the language says such a run does is C08's business): those histories are not given to the reference interpreter
+        sample = [i for i in range(len(hists)) if models[i] and impl_by_profile["debug"][i] and not any(s in DIRTY_OK for s in hists[i])]
         rng.shuffle(sample)
         sample = sample[:(24 if quick else 300)]
         ref = reference_interpreter(ctx, [hists[i] for i in sample], [models[i] for i in sample],
                                     [impl_by_profile["debug"][i] for i in sample], len(sample))
+    phase("reference interpreter")
     # shrink the first NEW violation (one that is not attributed to a known class)
     fresh_v = [v for v in ctx.violations if not v.get("known_class") and "wire" in v and "Spec" in v["what"]]
     if fresh_v and not ctx.replay_only:
@@ -1029,7 +1282,8 @@ def run(ctx):
     for h in hists:
         for s in h:
             key = {0: "var", 1: "print", 2: "fn", 3: "call", 4: "class", 5: "use_class", 6: "compile_error", 8: "try_finally_ok",
-                   9: "try_catch_ok", 10: "fiber_ok", 11: "capture_ok", 12: "range", 13: "use_closure", 16: "RESET", 17: "use_fiber", 18: "probe_undeclared_global"}.get(s[0])
+                   9: "try_catch_ok", 10: "fiber_ok", 11: "capture_ok", 12: "range", 13: "use_closure", 16: "RESET", 17: "use_fiber", 18: "probe_undeclared_global",
+                   19: "ok_run_leaves_flag:finally_returns", 20: "ok_run_leaves_flag:fiber_parks_in_finally"}.get(s[0])
             if s[0] == 7:
                 key = "uncaught:" + W_NAMES[s[1]]
             elif s[0] == 14:
@@ -1044,6 +1298,8 @@ def run(ctx):
         "side_effect_histories": sfx, "side_effect_histories_failing_as_intended": sfx_failing,
         "side_effect_kinds": [c[0] for c in SIDEFX],
         "residue_failing_kinds": [c[0] for c in RESIDUE_FAILS], "residue_probes": [c[0] for c in RESIDUE_PROBES],
+        "ok_runs_leaving_state": dict(DIRTY_STATS), "ok_runs_leaving_state_kinds": [c[0] for c in DIRTY_FLAG_CORES] + [c[0] for c in DIRTY_OTHER],
+        "ok_runs_leaving_state_probes": [c[0] for c in RESIDUE_PROBES + DIRTY_PROBES], "split_cases": [c[0] for c in SPLIT_CASES],
         "distinct_nontrivial": len(nontriv),
         "rule": "histories of <= 9 snippets of the mini-language ReplLang.v (definitions, uses, compile errors, uncaught errors from 18 places, "
                 "try/finally and fibers that complete, imports of a good/throwing/missing/uncompilable/nested module, RESET): every "
@@ -1055,7 +1311,7 @@ def run(ctx):
         "histories": len(hists), "snippets": nsn, "snippet_kinds": kinds, "core_chunks": core,
         "traces_validated_against_impl": len(hists) * 2,
         "metamorphic_replacements": meta, "reset_vs_fresh_vm": fresh, "reference_interpreter_histories": ref,
-        "builds": sorted(bins),
+        "builds": sorted(bins), "harness_cases_rerun_after_crash_or_timeout": dict(RETRIES),
     })
 
 
